@@ -280,17 +280,9 @@ func (s *Set) Equal(a *Set) bool {
 	} else if lens == 0 && lena == 0 {
 		return true
 	}
-	x, y := s.Head.Forward, a.Head.Forward
-	for {
-		if x.Begin != y.Begin || x.End != y.End {
-			return false
-		}
-		x, y = x.Forward, y.Forward
-		if x == nil && y == nil {
-			break
-		}
-	}
-	return true
+	/* the same code points may be split into different adjacent intervals,
+	   so compare contents: equal sizes and nothing new in the union */
+	return s.Union(a).Len() == lens
 }
 
 // Len returns the size of the set.
